@@ -14,6 +14,7 @@ SPEC = {
  "mark":     ("h_mark", [], ["GC_Recurse:cv_recurse", "mark:cv_tls_mark"], ["GC_Mark"], ["C01"]),
  "sweep":    ("h_sweep", ["MARKS=1"], ["GC_Resize_Less:cv_resize_less"], ["GC_Sweep"], ["C01", "C06", "C17"]),
  "sweep_owner": ("h_sweep_owner", ["MARKS=1"], ["GC_Resize_Less:cv_resize_less"], ["GC_Sweep", "GC_Rem", "GC_Rem_Ptr"], ["C06"]),
+ "sweep_owner_cut": ("h_sweep_owner_cut", ["MARKS=1"], ["GC_Resize_Less:cv_resize_less"], ["GC_Sweep", "del (cut by the contract of GC_Rem_Ptr)"], ["C06"]),
  "gc_set":   ("h_gc_set", [], ["GC_Resize_More:cv_resize_more", "GC_Mark:cv_mark_stub", "GC_Sweep:cv_sweep_stub"], ["GC_Set"], ["C17", "C01"]),
  "gc_rem":   ("h_gc_rem", [], ["GC_Resize_Less:cv_resize_less"], ["GC_Rem", "GC_Rem_Ptr"], ["C06", "C17"]),
  "gc_del":   ("h_gc_del", [], ["GC_Resize_Less:cv_resize_less", "rem:cv_tls_rem"], ["GC_Del", "GC_Sweep"], ["C06"]),
@@ -30,7 +31,7 @@ def gc_jobs(tier, prop):
                 continue
             if name == "sweep_owner":
                 continue          # re-entrant GC_Rem inside a sweep: no result within 10 min at capacity 3 (undecided, see DESIGN.md)
-            if ns == 5 and name in ("sweep", "gc_del"):
+            if ns == 5 and name in ("sweep", "gc_del", "sweep_owner_cut"):
                 continue          # GC_Sweep at capacity 5 does not finish within 15 minutes (nested compaction loops over symbolic slots)
             if ns == 1 and name not in ("set_ptr", "mem_ptr", "gc_set", "recurse"):
                 continue          # a capacity-1 registry is always empty at rest
